@@ -60,3 +60,184 @@ def derive_line(g, L, known, grid, kind, args, rng=None, with_battery=True, muta
     else:
         line["src2"] = line["src"]
     return line
+
+
+# --------------------------------------------------------------------------- write / read round trips (C09, C10, C11)
+import bz2  # noqa: E402
+import gzip  # noqa: E402
+import hashlib  # noqa: E402
+import io  # noqa: E402
+import json  # noqa: E402
+import os  # noqa: E402
+import tempfile  # noqa: E402
+
+from .tlc import OUT  # noqa: E402
+
+
+def _dig(x):
+    try:
+        return hashlib.md5(json.dumps(x, sort_keys=True, default=repr).encode()).hexdigest()[:10]
+    except Exception as ex:
+        return "undigestible:" + exc_name(ex)
+
+
+def _node_digests(G, L):
+    out = []
+    try:
+        for n, d in G.nodes(data=True):
+            try:
+                out.append([L.anode(n), _dig(d)])
+            except (KeyError, TypeError):
+                out.append([0, "unknown-node"])
+    except Exception as ex:
+        out.append([0, "exc:" + exc_name(ex)])
+    return out
+
+
+def _read_bytes(target, path, fobj):
+    if target == "fileobj":
+        return fobj.getvalue()
+    if target == "gz":
+        with gzip.open(path, "rb") as f:
+            return f.read()
+    if target == "bz2":
+        with bz2.open(path, "rb") as f:
+            return f.read()
+    with open(path, "rb") as f:
+        return f.read()
+
+
+def _tokenise(data, enc, delim, L, ncols, known):
+    """strict tokeniser of what a writer produced; returns (rows, errors)"""
+    errs = []
+    rows = []
+    back = {}
+    for n in known:
+        back[str(L.node(n))] = n
+    try:
+        txt = data.decode(enc)
+    except Exception:
+        return [], ["rows:undecodable"]
+    parts = txt.split("\n")
+    if parts[-1] != "":
+        errs.append("rows:no-final-newline")
+    for ln in parts[:-1]:
+        f = ln.split(delim)
+        if len(f) != ncols:
+            errs.append("rows:field-count")
+            continue
+        try:
+            u, v = back[f[0]], back[f[1]]
+            if ncols == 3:
+                rows.append([u, v, L.atime(int(f[2]))])
+            else:
+                if f[2] not in ("+", "-"):
+                    raise KeyError(f[2])
+                rows.append([u, v, f[2], L.atime(int(f[3]))])
+        except (KeyError, ValueError):
+            errs.append("rows:unknown-field")
+    return rows, sorted(set(errs))
+
+
+def io_line(g, L, known, grid, kind, cfg, rng=None, with_battery=True):
+    """kind in snapshots | interactions | json; cfg: delim, enc, target, ..."""
+    line = {"op": "derive", "kind": kind, "fork": False}
+    line.update({k: v for k, v in cfg.items() if isinstance(v, (int, str, bool))})
+    directed = bool(g.is_directed())
+    H = None
+    res = "ok"
+    line["rows"] = []
+    line["rowerr"] = []
+    tmpdir = os.path.join(OUT, "tmp")
+    os.makedirs(tmpdir, exist_ok=True)
+    path = None
+    try:
+        if kind in ("snapshots", "interactions"):
+            delim, enc, target = cfg["delim"], cfg["enc"], cfg["target"]
+            sample = L.node(known[0])
+            nodetype = int if isinstance(sample, int) else str
+            ext = {"plain": ".txt", "gz": ".gz", "bz2": ".bz2", "fileobj": ".txt"}[target]
+            fd, path = tempfile.mkstemp(suffix=ext, dir=tmpdir)
+            os.close(fd)
+            fobj = None
+            writer = dn.write_snapshots if kind == "snapshots" else dn.write_interactions
+            reader = dn.read_snapshots if kind == "snapshots" else dn.read_interactions
+            if target == "fileobj":
+                fobj = io.BytesIO()
+                writer(g, fobj, delimiter=delim, encoding=enc)
+            else:
+                writer(g, path, delimiter=delim, encoding=enc)
+            data = _read_bytes(target, path, fobj)
+            line["rows"], line["rowerr"] = _tokenise(data, enc, delim, L, 3 if kind == "snapshots" else 4, known)
+            if target == "fileobj":
+                with open(path, "wb") as f:
+                    f.write(data)
+                with open(path, "rb") as f:
+                    H = reader(f, directed=directed, delimiter=delim, nodetype=nodetype, timestamptype=int, encoding=enc)
+            else:
+                H = reader(path, directed=directed, delimiter=delim, nodetype=nodetype, timestamptype=int, encoding=enc)
+        elif kind == "json":
+            from dynetx.readwrite import json_graph
+            idkey = cfg.get("idkey", "id")
+            attrs = dict(id=idkey, source="source", target="target")
+            data = json_graph.node_link_data(g, attrs=attrs) if idkey != "id" else json_graph.node_link_data(g)
+            line["ddir"] = data.get("directed") if isinstance(data.get("directed"), bool) else False
+            line["ddirok"] = isinstance(data.get("directed"), bool)
+            try:
+                txt = json.dumps(data)
+                line["dumps"] = "ok"
+            except Exception as ex:
+                line["dumps"] = exc_name(ex)
+                raise
+            links, dnodes, rowerr = [], [], []
+            for d in data.get("links", []):
+                try:
+                    if set(d.keys()) != {"source", "target", "time"}:
+                        rowerr.append("rows:link-keys")
+                    links.append([L.anode(d["source"]), L.anode(d["target"]), L.atime(d["time"])])
+                except (KeyError, TypeError):
+                    rowerr.append("rows:link-shape")
+            for d in data.get("nodes", []):
+                try:
+                    a = d.get("lab", 0)
+                    dnodes.append([L.anode(d[idkey]), a if isinstance(a, int) and not isinstance(a, bool) else -1,
+                                   _dig({k: v for k, v in d.items() if k != idkey})])
+                except (KeyError, TypeError):
+                    rowerr.append("rows:node-shape")
+            line["rows"] = links
+            line["dnodes"] = dnodes
+            line["rowerr"] = sorted(set(rowerr))
+            line["ggraph"] = _dig(g.graph)
+            line["dgraph"] = _dig(data.get("graph"))
+            back = json.loads(txt)
+            haskey = not cfg.get("dropkey", False)
+            if not haskey:
+                del back["directed"]
+            line["haskey"] = haskey
+            line["argdir"] = bool(cfg.get("argdir", False))
+            H = json_graph.node_link_graph(back, directed=line["argdir"], attrs=attrs) if idkey != "id" \
+                else json_graph.node_link_graph(back, directed=line["argdir"])
+        else:
+            raise AssertionError(kind)
+    except AssertionError:
+        raise
+    except Exception as ex:
+        res = exc_name(ex)
+    finally:
+        if path and os.path.exists(path):
+            os.remove(path)
+    line["res"] = res
+    line["src"] = core.observe(g, L, known, grid)
+    line["src2"] = line["src"]
+    line["gdig"] = _node_digests(g, L)
+    if H is not None:
+        line["hcls"] = type(H).__name__
+        try:
+            line["hdir"] = bool(H.is_directed())
+        except Exception:
+            line["hdir"] = False
+        line["obs"] = core.observe(H, L, known, grid)
+        line["q"] = battery.queries(H, L, known, grid, rng=rng, nb_limit=3) if with_battery else []
+        line["hdig"] = _node_digests(H, L)
+        line["hgraph"] = _dig(H.graph)
+    return line
